@@ -4,8 +4,10 @@
 (* every palette entry occurs first, last, alone, and next to an entry of the same class.                      *)
 EXTENDS Batch, TLC
 CONSTANTS NPal,          \* number of palette entries (the harness defines the same palette, with ClassOf below)
-          MaxLen, CoefIdx
+          MaxLen, CoefIdx, DecIdx
 CoefOf == <<-3, -2, -1, 1, 2, 3>>
+\* decades of the excitation for the homogeneity law Obs(10^d * e) = 10^d * Obs(e): weak and strong excitations are ordinary inputs
+DecOf == <<-15, -12, -9, -6, -3, 3, 6, 9>>
 VARIABLES kind, arr, lin
 vars == <<kind, arr, lin>>
 \* classes of the palette entries (two entries of each class that has a variable-size geometry)
@@ -20,6 +22,7 @@ Sandwich == {<<i, j, k>> : i \in 1..NPal, j \in 1..NPal, k \in 1..NPal} \cap {a 
 \* "batch1": the smallest case - static copies of the sources and ONE observer (placed inside the last source)
 Init == \/ (kind \in {"batch", "batch1"} /\ arr \in Arrs /\ lin = <<0, 0>>)
         \/ (kind = "batch" /\ arr \in Sandwich /\ lin = <<0, 0>>)
+        \/ (kind = "homog" /\ arr \in [1..1 -> 1..NPal] /\ lin \in {<<DecOf[i], 0>> : i \in DecIdx})
         \/ (kind = "linear" /\ arr \in [1..1 -> 1..NPal] /\ lin \in {<<CoefOf[i], CoefOf[j]>> : i \in CoefIdx, j \in CoefIdx})
 Next == UNCHANGED vars
 Spec == Init /\ [][Next]_vars
@@ -31,5 +34,5 @@ ASSUME \A i \in 1..NPal :
          /\ (\E j \in 1..NPal : j # i /\ ClassOf(j) = ClassOf(i)) => \E a \in Arrs : \E q \in 1..(Len(a) - 1) : a[q] = i /\ a[q + 1] # i /\ ClassOf(a[q + 1]) = ClassOf(i)
          /\ \E a \in Arrs : \E q \in 1..(Len(a) - 1) : a[q] = i /\ a[q + 1] = i
 ASSUME \A c \in Ragged : (\E a \in Sandwich : ClassOf(a[1]) = c /\ a[1] = a[3]) /\ (\E a \in Sandwich : ClassOf(a[1]) = c /\ a[1] # a[3] /\ a[2] # a[3])
-TypeOK == kind \in {"batch", "batch1", "linear"} /\ Len(arr) >= 1
+TypeOK == kind \in {"batch", "batch1", "linear", "homog"} /\ Len(arr) >= 1
 =============================================================================
